@@ -309,6 +309,21 @@ def run(ctx):
     if bad and not failures:
         failures += 1
         ctx.broken('translator/resolution_order: ' + '; '.join(bad), json.dumps(bad), shape={'broken': 'resolution_order'})
+    # deferred names whose referent is itself a PEP hint (user generics over subscripted containers, typed dictionaries,
+    # protocols, aliases), alone and as a child hint: the string must check like the evaluated annotation
+    try:
+        prow = run_impl('c07_pephints.py', {}, timeout=600)
+    except Exception as e:  # noqa
+        prow = [{'error': str(e)[-600:], 'family': 'crash'}]
+    ctx.evaluations += len(prow)
+    ctx.extra['pep_referent_rows'] = len(prow)
+    for r in prow:
+        if 'error' in r or r['string'] != r['evaluated']:
+            failures += 1
+            ctx.report({'clause': 'string_vs_evaluated', 'stream': 'pep_referent', 'family': r.get('family')}, r,
+                       'a deferred name resolving to a class that is itself a PEP hint is not checked like the evaluated annotation')
+            if failures > 12:
+                break
     if proof_err is not None and not failures:
         ctx.broken(f'{PROP} ({proof_err.what})', proof_err.log)
 
@@ -317,5 +332,13 @@ def replay(ctx, path):
     with open(path) as f:
         body = json.load(f)
     spec = body['record'].get('spec')
+    if body['record'].get('family') and body['record'].get('placement'):
+        want = body['record']
+        for r in run_impl('c07_pephints.py', {}, timeout=600):
+            if all(r.get(k) == want.get(k) for k in ('family', 'text', 'placement', 'object')):
+                print(json.dumps(r))
+                if 'error' in r or r['string'] != r['evaluated']:
+                    ctx.report(body.get('shape') or {'clause': 'string_vs_evaluated'}, r, 'the row still disagrees')
+        return
     if spec:
         print(json.dumps(run_impl('c07_impl.py', {'cases': [spec]})[0])[:4000])
